@@ -1,6 +1,7 @@
 import DrummerVerif.Lemmas.C13
 import DrummerVerif.Lemmas.C13H
 import DrummerVerif.Lemmas.C13B
+import DrummerVerif.Lemmas.C13R
 /-!
 # C13 — finalized keys are write-once; non-finalized keys are CAS; the bootstrap gate holds
 
@@ -108,6 +109,50 @@ theorem defs_history (cs : List Cmd) (d d' : DB) (h : runCmds d cs = .ok d') :
     (d.bootstrapped = true → d'.shards = d.shards ∧ d'.bootstrapped = true) :=
   Drummer.defs_history cs d d' h
 
+
+/-! ## the KV map over histories: every key is one compare-and-swap register
+
+`casStep` is the whole specification of a key (free: any write lands; finalized: nothing lands; otherwise a write
+lands iff it presents the holder's instance id as its own or as the one it replaces). `specStep` lifts it to the
+commands of the DB: a KV command writes its record, the first accepted launch batch writes the launched flag, nothing
+else writes. -/
+
+/-- **refinement over histories**: after any command history (KV writes, definitions, ticks, reports, request batches -
+any number, any order) the value of every key equals the value the register specification computes from the same
+history. -/
+theorem kv_map_is_a_cas_register_per_key (cs : List Cmd) (d d' : DB) (h : runCmds d cs = .ok d') (k : Bytes) :
+    kvGet d'.kv k = cs.foldl specStep (fun k => kvGet d.kv k) k :=
+  Drummer.kv_history_refines cs d d' h k
+
+/-- the value of key `k` after a history is the fold of `casStep` over the records written *to that key* -/
+theorem key_value_is_cas_fold_of_its_writes (cs : List Cmd) (d d' : DB) (h : runCmds d cs = .ok d') (k : Bytes) :
+    kvGet d'.kv k = (specWrites k (fun k => kvGet d.kv k) cs).foldl casStep (kvGet d.kv k) := by
+  have := Drummer.kv_history_refines cs d d' h k
+  rw [specFold_key] at this
+  exact this
+
+/-- **a key changes only by a successful compare-and-swap**: if any command changes the record under `k`, that command
+wrote a record `w` to exactly `k`, `w` is what the key holds now, and the key was free or held a non-finalized record
+whose instance id `w` presents as its own or as the one it replaces. -/
+theorem key_changes_only_by_cas (d d' : DB) (c : Cmd) (n : Nat) (h : d.apply c = .ok (d', n)) (k : Bytes)
+    (hne : kvGet d'.kv k ≠ kvGet d.kv k) :
+    ∃ w, specWrite (fun k => kvGet d.kv k) c = some w ∧ w.key = k ∧ kvGet d'.kv k = some w ∧
+      (kvGet d.kv k = none ∨ ∃ old, kvGet d.kv k = some old ∧ old.finalized = false ∧
+        (old.instanceId = w.instanceId ∨ old.instanceId = w.oldInstanceId)) :=
+  Drummer.apply_changes_only_by_cas d d' c n h k hne
+
+/-- **first writer wins** (bootstrapped flag, launched flag, regions, deployment id - all written finalized by
+server.go / db.go): a key that is free and only ever written finalized along a history holds the first record written to
+it at the end, whatever else was applied. -/
+theorem first_writer_wins (cs : List Cmd) (d d' : DB) (h : runCmds d cs = .ok d') (k : Bytes)
+    (hfree : kvGet d.kv k = none)
+    (hall : ∀ w ∈ specWrites k (fun k => kvGet d.kv k) cs, w.finalized = true) :
+    kvGet d'.kv k = (specWrites k (fun k => kvGet d.kv k) cs).head? :=
+  Drummer.first_writer_wins cs d d' h k hfree hall
+
+/-- the record db.go writes for the launched flag is finalized, so the launched flag is first-writer-wins too -/
+theorem launched_record_is_finalized : launchedRec.finalized = true ∧ launchedRec.key = launchedKey := ⟨rfl, rfl⟩
+
 /-! ## non-vacuity: the hypotheses are met by concrete non-trivial states -/
 def k1 : Bytes := [107, 49]
 def recA : KVRec := { key := k1, value := [118], instanceId := 1 }
@@ -129,5 +174,15 @@ example : (match demo with
     | .panic _ => False) := by
   simp [demo, bind, DB.applyKV, DB.apply, DB.applyTick, kvGet, kvPut, recA, recFin, recLate, k1, runCmds,
     DBKVUpdated, DBKVFinalized, tickInterval, pure, Gen.DBKVUpdated, Gen.DBKVFinalized, Gen.tickIntervalSecond]
+
+/-- non-vacuity of the history theorems: two campaigns against holder 1 (instance ids 2 and 3, both naming 1 as the
+one they replace) - only the first lands; the specification computes the same and sees both writes -/
+def recB : KVRec := { key := k1, value := [121], instanceId := 2, oldInstanceId := 1 }
+def recC : KVRec := { key := k1, value := [122], instanceId := 3, oldInstanceId := 1 }
+example : specWrites k1 (fun _ => none) [.kv recA, .tick, .kv recB, .kv recC] = [recA, recB, recC] ∧
+    [recA, recB, recC].foldl casStep none = some recB := by
+  refine ⟨?_, ?_⟩
+  · simp [specWrites, specWrite, specStep, recA, recB, recC, k1]
+  · simp [casStep, recA, recB, recC]
 
 end Drummer.C13
